@@ -572,6 +572,27 @@ where
     Sx::ok(Sx::L(vec![Sx::b(dbg1 == dbg2), Sx::b(re)]))
 }
 
+/// As [rt_response] for a response whose encoding is not a function of the value (the multipart
+/// boundary of federation media responses is random): the second flag compares the value decoded
+/// from a second encoding instead of the two encodings.
+pub fn rt_response_by_value<R>(resp: R) -> Sx
+where
+    R: OutgoingResponse + IncomingResponse + Debug,
+{
+    let dbg1 = format!("{resp:?}");
+    let h1: http::Response<Vec<u8>> = match resp.try_into_http_response() {
+        Ok(h) => h,
+        Err(e) => return Sx::err(into_err_code(&e)),
+    };
+    let Ok(resp2) = R::try_from_http_response(h1) else { return Sx::ok(Sx::L(vec![Sx::b(false), Sx::b(false)])) };
+    let dbg2 = format!("{resp2:?}");
+    let re = match resp2.try_into_http_response::<Vec<u8>>() {
+        Ok(h2) => R::try_from_http_response(h2).map(|r3| format!("{r3:?}") == dbg2).unwrap_or(false),
+        Err(_) => false,
+    };
+    Sx::ok(Sx::L(vec![Sx::b(dbg1 == dbg2), Sx::b(re)]))
+}
+
 /// One entry of the endpoint table: name, number of string values it consumes, metadata,
 /// request builder and response builder (None when the strings do not make valid field values).
 pub struct Ep {
